@@ -79,7 +79,8 @@ Judge_logic(e) ==
      \cup (IF LintClean(c) THEN {} ELSE {"block_not_lint_clean"})
      \cup (IF e.lint_exc = "" THEN {} ELSE {"cg_lint_rejects_block"})
      \cup (IF ~(WellFormedRec(c) /\ c.acyc /\ IsTopo(c)) \/ FreeNames(c) # Range(e.inames) \/ InputNames(c) # io.ins \/ OutputNames(c) # io.outs
-           THEN (IF FreeNames(c) = Range(e.inames) THEN {} ELSE {"MACHINERY:input_names_hint"})
+           THEN (IF FreeNames(c) = Range(e.inames) THEN {}
+                 ELSE IF Range(e.inames) = InputNames(c) THEN {"block_has_undriven_nodes"} ELSE {"MACHINERY:input_names_hint"})
            ELSE LET vals == Eval(c, V, FvByName(c, cols)) IN UNION {VecClauses(e, vals, j) : j \in V})
 
 (* helpers: e.n_bits little-endian bits of n (n >= 1), e.res the returned int *)
